@@ -164,15 +164,6 @@ func genRnnCase(rt *rapid.T) rnnCase {
 	c.B = rapid.SampledFrom([]int{1, 1, 2, 3, 4}).Draw(rt, "batch")
 	c.I = rapid.SampledFrom([]int{1, 2, 2, 3, 4}).Draw(rt, "input")
 	c.H = rapid.SampledFrom([]int{1, 2, 2, 3, 3, 4, 5}).Draw(rt, "hidden")
-	// down-weight (not remove) the classes a known defect makes useless for everything else
-	if (c.H == 1 || c.B*c.I == 1) && rapid.IntRange(0, 2).Draw(rt, "keepUnit") != 0 {
-		if c.H == 1 {
-			c.H = 2
-		}
-		if c.B*c.I == 1 {
-			c.I = 2
-		}
-	}
 	G := c.gates()
 	c.X = smallF32s(rt, c.S*c.B*c.I, 2, "x")
 	c.W = smallF32s(rt, G*c.H*c.I, 1, "w")
